@@ -70,6 +70,16 @@ structure SessionData where
   outbound : Outbound
   pendingServerIds : List Nat := []
   sessionPresent : Bool := false
+  /-- Ghost (not in the code, never printed): a CONNACK has been accepted at some point. Set by a
+  successful `Session.activate`, never cleared. -/
+  everAccepted : Bool := false
+  /-- Ghost (not in the code, never printed): finding F19 has struck — a CONNACK that announced a
+  fresh session reset the local state and was then rejected for its properties, and no CONNACK has
+  been accepted since. Set by a failing `Session.activate` with `sp = false`, cleared by a successful one. -/
+  halfReset : Bool := false
+  /-- Ghost (not in the code, never printed): the Assigned Client Identifier of the last accepted
+  CONNACK that carried one. -/
+  assignedId : Option Bytes := none
   deriving Repr, Inhabited
 
 namespace SessionData
